@@ -161,6 +161,10 @@ func DecodeSerializedValues(p []byte) ([]byte, []byte, []byte, uint16, uint32, e
 	if err != nil {
 		return nil, nil, nil, 0, 0, err
 	}
+	if len(p) != 0 {
+		// (GP A.37) p is exactly the concatenation of its sections
+		return nil, nil, nil, 0, 0, fmt.Errorf("%d unexpected bytes after the code section", len(p))
+	}
 
 	return c, o, w, uint16(z), uint32(s), nil
 }
